@@ -150,6 +150,7 @@ class Ctx:
             if os.environ.get("VERIF_MOD_DISCOVER"):
                 with open(os.environ["VERIF_MOD_DISCOVER"], "a") as f: f.write("%s %s\n" % (op, ",".join(map(str, r.mod))))
             else:
+                self.count("input_monitor_changed_blocks_seen", len(r.mod))      # liveness of the monitor: documented in/out arguments do change
                 for k in r.mod:
                     if k not in INOUT.get(op, ()):
                         self.fail("%s:%s:input_argument_modified:arg%d" % (self.prop, op, k), "the call changed the bytes of input argument %d, which the API declares const (or the shim passes as a pure input): %r" % (k, r), cmds=list(s.hist), config=config)
